@@ -161,6 +161,7 @@ func runWSCase(c *Ctx, wc wsCase, tape *simrt.Tape) (vs []wsV, evals int, accept
 		failData, failIndex = op.Fail == "data", op.Fail == "index"
 		err := wr.WriteNext(key, val)
 		evals++
+		Beat()
 		ascending := !haveLast || bytes.Compare(key, lastAccepted) > 0
 		// an injected failure is only consumed when the call got that far
 		injected := (op.Fail == "data" && !failData) || (op.Fail == "index" && !failIndex)
@@ -196,6 +197,7 @@ func runWSCase(c *Ctx, wc wsCase, tape *simrt.Tape) (vs []wsV, evals int, accept
 		got, err = drain(it, len(wc.Ops)+5)
 	}
 	evals++
+	Beat()
 	if err != nil {
 		add("scan-error|"+normErr(err), err.Error())
 		return
@@ -239,6 +241,7 @@ func runWSCase(c *Ctx, wc wsCase, tape *simrt.Tape) (vs []wsV, evals int, accept
 		}
 	}
 	evals++
+	Beat()
 	if md.NumRecords != uint64(len(acc)) || md.NullValues != uint64(nulls) {
 		add("metadata|counts", fmt.Sprintf("metadata says %d records / %d nil values, accepted %d / %d", md.NumRecords, md.NullValues, len(acc), nulls))
 		return
